@@ -117,6 +117,7 @@ type Exec struct {
 	pinVals     map[string]*big.Int
 	byteProv    map[int]byteProv
 	dmSrc       map[int]dmSource
+	limbBuf     map[string]map[int]*big.Int
 	ufApps      map[string][]*ufApp
 	capAll      map[string][]*Term       // every distinct definition of a captured variable, in order
 	capLastReg  map[string]ssa.Value     // SSA register currently holding the variable
@@ -138,7 +139,7 @@ func NewExec(prog *ssa.Program, cfg *HarnessCfg) *Exec {
 		initDone: map[*ssa.Package]bool{}, initRunning: map[*ssa.Package]bool{},
 		notes: map[string]int{}, loopCache: map[*ssa.Function]*loopForest{},
 		funcsSeen: map[string]bool{}, errObjs: map[string]*Object{}, typeObjs: map[string]*Object{},
-		ufAxiomDone: map[string]bool{}, strIntern: map[string]int{}, ghost: map[string]Value{}, negOf: map[int]*Term{}, dmCache: map[string][2]*Term{}, defOf: map[int]*Term{}, defAsserted: map[int]bool{}, feltQ: map[string]*big.Int{}, byteProv: map[int]byteProv{}, dmSrc: map[int]dmSource{}, ufApps: map[string][]*ufApp{}, capAll: map[string][]*Term{}, capLastReg: map[string]ssa.Value{}, capFinal: map[string]*Term{}, capLastVal: map[string]Value{}, ufAppSeen: map[string]bool{}}
+		ufAxiomDone: map[string]bool{}, strIntern: map[string]int{}, ghost: map[string]Value{}, negOf: map[int]*Term{}, dmCache: map[string][2]*Term{}, defOf: map[int]*Term{}, defAsserted: map[int]bool{}, feltQ: map[string]*big.Int{}, byteProv: map[int]byteProv{}, dmSrc: map[int]dmSource{}, limbBuf: map[string]map[int]*big.Int{}, ufApps: map[string][]*ufApp{}, capAll: map[string][]*Term{}, capLastReg: map[string]ssa.Value{}, capFinal: map[string]*Term{}, capLastVal: map[string]Value{}, ufAppSeen: map[string]bool{}}
 }
 
 func (ex *Exec) note(s string) { ex.notes[s]++ }
